@@ -103,6 +103,58 @@ def Conc.run (C : Conc) (es : List ConcEvent) : Option Conc := es.foldlM Conc.st
 
 def Conc.Reachable (C : Conc) : Prop := ∃ w ff es, Conc.run (Conc.init w ff) es = some C
 
+/-! ### executions and fairness
+
+An execution of the processor is an infinite sequence of ticks; at each tick some goroutine attempts
+an event (or nothing happens); an attempt that is not enabled leaves the state as it is. -/
+
+def ConcEvent.internal : ConcEvent → Bool
+  | .at _ e => e.internal
+  | .newRoot => false
+
+/-- events by which the program (adding goroutines, the actions' own code) brings new work:
+    `NewRootMonitor`, observer registrations of `AddEventAndWait` / `AddEvent`, `AddEvent`, `NewChildMonitor` -/
+def ConcEvent.adds : ConcEvent → Bool
+  | .newRoot => true
+  | .at _ .register => true
+  | .at _ .regHandler => true
+  | .at _ (.addEvent _ _ _) => true
+  | .at _ (.newChild _) => true
+  | _ => false
+
+structure Exec where
+  C     : Nat → Conc
+  ev    : Nat → Option ConcEvent
+  start : (C 0).Reachable
+  next  : ∀ n, C (n + 1) = match ev n with
+    | none => C n
+    | some e => (Conc.stepE (C n) e).getD (C n)
+
+/-- some engine step (pop, action return, task end, error handling, post, callback) of some cascade is enabled -/
+def Conc.enabledInternal (C : Conc) : Prop := ∃ r e, e.internal = true ∧ (C.step r e).isSome = true
+
+/-- at tick `n` an engine step is attempted and succeeds -/
+def Exec.tookInternal (X : Exec) (n : Nat) : Prop :=
+  ∃ e, X.ev n = some e ∧ e.internal = true ∧ (Conc.stepE (X.C n) e).isSome = true
+
+/-- FAIRNESS ASSUMPTION (weak, for the engine as a whole): whenever some engine step is enabled, an
+    engine step is eventually taken. This is what the Go scheduler (every runnable goroutine is
+    eventually run) together with the pool's liveness (C09: a queued task is eventually popped by
+    a free worker) provide; it is assumed, not proved. -/
+def Exec.Fair (X : Exec) : Prop := ∀ n, (X.C n).enabledInternal → ∃ m, n ≤ m ∧ X.tookInternal m
+
+/-- from tick `N` on the program adds no new work (the actions have performed all their
+    `NewChildMonitor`/`AddEvent` calls — "the actions terminate" — and no new cascade is started) -/
+def Exec.AddsStopAt (X : Exec) (N : Nat) : Prop := ∀ n, N ≤ n → ∀ e, X.ev n = some e → e.adds = false
+
+def Conc.viewWork (C : Conc) (r : Nat) : Nat :=
+  match C.view r with
+  | some v => workLeft v
+  | none => 0
+
+/-- total work left in all cascades -/
+def Conc.work (C : Conc) : Nat := ((List.range C.roots.length).map C.viewWork).sum
+
 /-- what `Cascade.step` does to the shared-looking fields of a state, as a function of the event -/
 def obsEffect (e : Event) (v : State) : Nat × Nat × Nat × Bool × Nat × Nat × Nat :=
   match e with
